@@ -235,3 +235,64 @@ func VerifHarness_C04_recover() {
 	}
 	verifObserve("T1", T1)
 }
+
+func init() { verifRegister("C04_chunk_step", VerifHarness_C04_chunk_step) }
+
+// C04_chunk_step — inductive step for chunked recovery: from ANY recovery state with a chunk in progress
+// (symbolic expected number T, chunk end C, range end R with T <= C < R) one replayed message or one gap fill
+// with a symbolic NewSeqNo; a further ResendRequest is sent exactly when the chunk is used up and numbers are
+// still missing, and it begins at the number expected at that moment.
+func VerifHarness_C04_chunk_step() {
+	bs := verifPickBeginString()
+	r := verifNewSession(false, bs)
+	chunk := verifConc(ndInt("chunk", 1, 3))
+	r.s.ResendRequestChunkSize = chunk
+	T := ndInt("T", verifSeqLo(), 40)
+	C := ndInt("C", verifSeqLo(), 45)
+	R := ndInt("R", verifSeqLo(), 50)
+	verifAssume(T <= C && C < R && C < T+chunk)
+	r.setCounters(T, 5)
+	r.app.inLogon = true
+	kept := r.appMessage(R + 1)
+	r.s.State = resendState{resendRangeEnd: R, currentResendRangeEnd: C, messageStash: map[int]*Message{R + 1: kept}}
+	if ndBool("gapfill") {
+		verifCase("gapfill")
+		m := r.inbound("4", T)
+		ns := ndInt("NewSeqNo", verifSeqLo(), 52)
+		verifAssume(ns > T && ns <= R+1) // fills only missing numbers
+		m.Body.SetInt(tagNewSeqNo, ns)
+		m.Body.SetBool(tagGapFillFlag, true)
+		verifPossDup(m)
+		r.s.fixMsgIn(r.s, m)
+	} else {
+		verifCase("replay")
+		m := r.appMessage(T)
+		verifPossDup(m)
+		r.s.fixMsgIn(r.s, m)
+	}
+	r.pump()
+	ws := r.drain()
+	now := r.st.NextTargetMsgSeqNum()
+	nreq := verifCountType(ws, "2")
+	if now > C && now <= R {
+		verifAssert(nreq == 1, "chunk-step-next-chunk-requested")
+		for i := range ws {
+			if ws[i].is("2") {
+				b, okb := ws[i].getInt(7)
+				e, oke := ws[i].getInt(16)
+				verifAssert(okb && b == now, "chunk-step-request-begins-at-expected-number")
+				want := c04EndMarker(bs)
+				if now+chunk-1 < R {
+					want = now + chunk - 1
+				}
+				verifAssert(oke && e == want, "chunk-step-endseqno-infinity-or-chunk")
+			}
+		}
+	} else if now > R {
+		verifAssert(nreq == 0, "chunk-step-no-request-when-nothing-is-missing")
+		verifAssert(len(r.app.fromApp) >= 1 && r.app.fromApp[len(r.app.fromApp)-1].seq == R+1, "chunk-step-kept-message-delivered")
+	} else if now < C {
+		verifAssert(nreq == 0, "chunk-step-no-request-inside-the-chunk")
+	}
+	verifObserve("now", now)
+}
